@@ -46,6 +46,184 @@ def f():
         out.append(next(reasons(d), None))
     return out
 """,
+    "generator-send-return-yield-from": """
+def head(tag):
+    got = yield ("head", tag)
+    return (yield ("second", got))
+def plan(tags):
+    seen = []
+    for t in tags:
+        r = yield from head(t)
+        seen.append(r)
+    x = yield ("tail", len(seen))
+    return seen, x
+def f():
+    g = plan("ab")
+    out = [next(g)]
+    i = 0
+    try:
+        while True:
+            i += 1
+            out.append(g.send(i * 10))
+    except StopIteration as e:
+        out.append(("ret", e.value))
+    def empty():
+        return 5
+        yield
+    def outer():
+        v = yield from empty()
+        w = yield from [1, 2]
+        return v, w
+    o = outer()
+    out.append(list(o))
+    g2 = plan("a")
+    try:
+        g2.send(3)
+    except TypeError:
+        out.append("just-started")
+    return out
+""",
+    "dataclass-initvar-init-false-kw-only": """
+from dataclasses import InitVar, dataclass, field
+@dataclass(eq=False)
+class Job:
+    src: InitVar[list]
+    k: int
+    side: str = "in"
+    copy: list = field(init=False, repr=False)
+    n: int = field(init=False, default=0)
+    tag: str = field(default="t", kw_only=True)
+    def __post_init__(self, src):
+        if self.k < 2:
+            raise ValueError("k")
+        self.copy = list(src)
+        self.n += len(src)
+@dataclass
+class Sub(Job):
+    extra: int = 7
+def f():
+    a = Job([1, 2], 3, side="out")
+    out = [a.k, a.side, a.copy, a.n, a.tag, hasattr(a, "src")]
+    try:
+        Job([1], 1)
+    except ValueError as e:
+        out.append("ve")
+    try:
+        Job([1], 2, "in", "x")
+    except TypeError:
+        out.append("te-positional")
+    try:
+        Job([1], 2, copy=[3])
+    except TypeError:
+        out.append("te-init-false")
+    try:
+        Job(k=2)
+    except TypeError:
+        out.append("te-missing-initvar")
+    s = Sub([9], 4, "s", 8, tag="z")
+    out.append((s.k, s.side, s.extra, s.copy, s.tag))
+    return out
+""",
+    "class-attributes-stored-by-chained-init-subclass": """
+class Base:
+    registry = {}
+    def __init_subclass__(cls, kinds=(), **kwargs):
+        super().__init_subclass__(**kwargs)
+        for kind in kinds:
+            Base.registry[kind] = cls
+    def __init__(self, x):
+        self.x = x
+    @staticmethod
+    def signed(sign, v):
+        return v if sign > 0 else -v
+    def encode(self):
+        return self.x
+class J(Base):
+    out_sign = in_sign = 1
+    def __init_subclass__(cls, out=1, ins=1, **kwargs):
+        super().__init_subclass__(**kwargs)
+        cls.out_sign, cls.in_sign = out, ins
+    def encode(self):
+        n = super().encode()
+        signed = self.signed
+        return [signed(-self.out_sign, n), signed(self.in_sign, 7)]
+class A(J, kinds=("and",), out=1, ins=1):
+    pass
+class O(J, kinds=("or",), out=-1, ins=-1):
+    pass
+def f():
+    return [(k, Base.registry[k](3).encode(), Base.registry[k].out_sign) for k in sorted(Base.registry)], J.out_sign, O.in_sign
+""",
+    "property-with-setter": """
+class Box:
+    def __init__(self):
+        self.inner = {"name": "a"}
+        self.log = []
+    @property
+    def name(self):
+        return self.inner["name"]
+    @name.setter
+    def name(self, value):
+        self.log.append(value)
+        self.inner["name"] = value.upper()
+class Sub(Box):
+    @property
+    def ro(self):
+        return 1
+def f():
+    b = Sub()
+    b.name = "x"
+    out = [b.name, b.log, b.inner]
+    try:
+        b.ro = 2
+    except AttributeError:
+        out.append("ro")
+    return out
+""",
+    "dict-subclass-hierarchy-with-registry": """
+from typing import ClassVar
+class Ledger(dict):
+    __slots__ = ()
+    _modes: ClassVar[dict] = {}
+    def __init_subclass__(cls, /, maximum, **kwargs):
+        super().__init_subclass__(**kwargs)
+        Ledger._modes[maximum] = cls
+    @classmethod
+    def starting_at(cls, ns, maximum):
+        return cls._modes[bool(maximum)].fromkeys(cls.listed(ns), 0)
+    @staticmethod
+    def listed(ns):
+        return (ns,) if isinstance(ns, str) else ns
+    def arrive(self, n, depth):
+        self[n] = depth
+        return depth
+    @property
+    def extreme(self):
+        raise NotImplementedError
+class Deep(Ledger, maximum=True):
+    __slots__ = ()
+    def arrive(self, n, depth):
+        return super().arrive(n, max(self[n], depth) if n in self else depth)
+    @property
+    def extreme(self):
+        return max(self.values())
+class Shallow(Ledger, maximum=False):
+    __slots__ = ()
+    def arrive(self, n, depth):
+        return super().arrive(n, min(self[n], depth) if n in self else depth)
+    @property
+    def extreme(self):
+        return min(self.values())
+def f():
+    out = []
+    for m in (True, False, 1, 0):
+        led = Ledger.starting_at(["a", "b"], m)
+        led.arrive("a", 3)
+        led.arrive("a", 1)
+        led.arrive("c", 2)
+        out.append((type(led).__name__, dict(led), led.extreme, isinstance(led, dict), Ledger.listed("x")))
+    return out
+""",
     "infinite-generator": """
 def naturals():
     i = 0
